@@ -536,6 +536,9 @@ def r02e(ctx, P, rid="R02.e"):
     ctx.floor(rid, n, 2, "set_len calls (Wal::truncate, Wal::truncate_to)")
 
 
+THOROUGH_FEATURES = ['r02e']
+
+
 def run(ctx, progs):
     P = progs.get("default")
     r02e(ctx, P)
